@@ -220,6 +220,21 @@ def gen_site(rng, size=None, redirects=True, inline=True, offsite=True, deep=Fal
         s.pages['/d/sub/leaf.txt'] = {'kind': 'leaf'}
         s.pages['/top.txt'] = {'kind': 'leaf'}
         s.start = '/d/start.html'
+        # sibling directories whose NAME begins like the start directory (/d-old/, /d2/): outside it all the same
+        s.pages['/d/start.html']['links'] += [('/d-old/index.html', False), ('/d2/c.html', False)]
+        s.pages['/d-old/index.html'] = {'kind': 'html', 'links': [('/d-old/f.html', False), ('/d/sub/leaf.txt', False)]}
+        s.pages['/d-old/f.html'] = {'kind': 'leaf'}
+        s.pages['/d2/c.html'] = {'kind': 'leaf'}
+    if redirects and rng.random() < 0.25:
+        # a moved section: more same-host redirects in one crawl than a host has connections (6), each to a page
+        # nobody else links to; whatever following a redirect costs, it must not add up
+        hub = '/d/start.html' if start_deep else '/'
+        base = '/d/' if start_deep else '/'
+        for k in range(rng.randint(7, 9)):
+            src, dst = '%smoved%d.html' % (base, k), '%snew%d.html' % (base, k)
+            s.pages[src] = {'kind': 'redirect', 'location': dst, 'code': rng.choice([301, 302, 303, 307])}
+            s.pages[dst] = {'kind': 'leaf'} if rng.random() < 0.7 else {'kind': 'html', 'links': [(hub, False)]}
+            s.pages[hub]['links'].append((src, False))
     return s
 
 
